@@ -67,7 +67,14 @@ def make_probe(spec, obs):
                 return
             qty = round(self.balance * 0.2 / self.price, 3)
             obs['submitted'] = True
+            self.vars['just_submitted'] = self.index
             self.buy = qty, self.price
+
+        def after(self):
+            # abort AFTER a MARKET order was submitted in this very step and before the simulator executes the pending
+            # MARKET orders: the order is still queued when the session dies
+            if abort and abort[0] == 'after' and self.index >= abort[1] and self.vars.get('just_submitted') == self.index:
+                raise Abort('scripted abort after a submission')
 
         def on_open_position(self, order):
             obs['opened_at'] = self.index
